@@ -1,4 +1,6 @@
 """C10 — Patches built on a stub apply to the real record with the same result."""
+import copy
+import json
 import os
 import random
 import shutil
@@ -104,6 +106,16 @@ def run_case(case, rec=None):
             if op[0] == "commit":
                 before_paths = set(sess.target.rec.ih5_files)
                 n_bound = len(sess.out.bound)
+            if op[0] == "commit" and len(op) > 1:
+                # the caller keeps (and later changes) the dict it passed: the committed extensions must not follow
+                mine = copy.deepcopy(op[1]["manifest_exts"])
+                sess.feed([["commit", {"manifest_exts": mine}]])
+                for v_ in list(mine.values()):
+                    if isinstance(v_, dict):
+                        v_["changed-by-caller-after-commit"] = True
+                mine["changed-by-caller-after-commit"] = True
+                classes.add("caller_mutates_passed_exts")
+                continue
             sess.feed([op])
         t = sess.target
         # was there a patch that only touched root attributes?
@@ -129,6 +141,12 @@ def run_case(case, rec=None):
             ch = sorted(n for n in dig0 if recutil.dir_digest(t.dir).get(n) != dig0[n])
             raise Violation("C10:refused-commit-changed-files", ch, "manifest on disk still matches its container")
         check_commit(sess, t.rec.ih5_files[-1], state["exts"])
+        # ... nor the record object: its in-memory header of the newest container still equals the one on disk
+        from metador_core.ih5.record import IH5UserBlock
+        mem, disk = t.rec.ih5_meta[-1], IH5UserBlock.load(t.rec.ih5_files[-1])
+        if json.loads(mem.json()) != json.loads(disk.json()):
+            raise Violation("C10:refused-commit-changed-record-object", f"in memory {mem.json()} vs on disk {disk.json()}",
+                            "a refused commit leaves the record as it was")
         if case.get("bad_kw"):
             # a commit refused because of an unknown keyword must not smuggle its extensions into the next commit
             t.rec.create_patch()
